@@ -131,7 +131,8 @@ unique_ptr<DiscreteDistributionInterface> BppODiscreteDistributionFormat::readDi
 
     for (auto i : v)
     {
-      unparsedArguments_[i] = TextTools::toString(rDist->getParameterValue(rDist->getParameterNameWithoutNamespace(i)));
+      // NB: full precision, these arguments are applied back to the distribution.
+      unparsedArguments_[i] = TextTools::toString(rDist->getParameterValue(rDist->getParameterNameWithoutNamespace(i)), 17);
     }
   }
   else if (distName == "Mixture")
